@@ -46,13 +46,13 @@ for d in sorted(glob.glob(f'{V}/seeded/*/meta.json')):
         f2 = 'patch no longer applies'
     elif fin:
         f2 = 'suite: ' + (', '.join(fin.get('suite_failures', [])) or 'compile error')
-    elif m.get('round') == 2:
+    elif m.get('round', 1) >= 2:
         f2 = 'the same run: written for the final tree (`/repo` at `354eed3`)'
     else:
         f2 = '(not re-run yet)'
     if m.get('final_note'): f2 += ' — ' + esc(m['final_note'])
     if m.get('ported'): f2 += ' — ' + esc(m['ported'])
-    seed.append('| %s | %s | %s | %s | %s |' % (pid + (' (round 2)' if m.get('round') == 2 else ''), esc(m['summary']), esc(m['trigger'])[:400], '<br>'.join(first), f2))
+    seed.append('| %s | %s | %s | %s | %s |' % (pid + (' (round %d)' % m['round'] if m.get('round', 1) >= 2 else ''), esc(m['summary']), esc(m['trigger'])[:400], '<br>'.join(first), f2))
 mut = ['| id | change | suite | checks |', '|---|---|---|---|']
 if os.path.exists(f'{V}/tools/mutants.json'):
     for m in json.load(open(f'{V}/tools/mutants.json')):
